@@ -154,6 +154,27 @@ def check_custom_arm(run, f, cfg):
             kind = "positional"
         elif len(emitted) == 1 and emitted[0][:2] == ("value", "minus1") and consumed == 2 and incs == 0:
             kind = "numbered"
+        # a lone mark is a placeholder on every positional (`?`) backend: keeping the mark as text, or reading a number
+        # after it, is sound only on the path guarded by `numbered`
+        under_numbered = False
+        if numbered_name is not None:
+            for c in p.conds:
+                if c[0] == "arm" and isinstance(c[1].get("guard"), dict):
+                    it_ = Interp(f)
+                    it_.free_opaque = True
+                    try:
+                        # the guard must be false whenever the placeholder style is positional
+                        if it_._bool(it_.ev(c[1]["guard"], {numbered_name: False})) is False:
+                            under_numbered = True
+                    except (Unsupported, Diverged):
+                        pass
+        keeps_mark = kind == "verbatim" and peeked.get(emitted[0][1], ("", ""))[0] == "Punctuation" and emitted[0][1] != tokvar
+        if keeps_mark or kind == "numbered":
+            run.ob("C11.R1", "custom:numbered-only:%s" % ("keeps-mark" if keeps_mark else "numbered"), under_numbered,
+                   "loop path %d (%s) is taken only under the `numbered` placeholder style%s" % (
+                       pi, "a mark followed by a word is written back as text" if keeps_mark else "mark + number selects values[n-1]",
+                       "" if under_numbered else " - NOT: on a positional backend the mark is a placeholder and its value would stay unbound"),
+                   sp=arm["sp"], cfg=cfg)
         desc = {"consumed_tokens": consumed, "emitted": emitted, "counter_increments": incs, "problems": problems}
         pkey = "custom:%s" % kind if kind else "custom:unclassified:consumes%d-emits%d" % (consumed, len(emitted))
         run.ob("C11.R1", pkey, kind is not None and not problems,
